@@ -198,6 +198,122 @@ fn bits_history<T: bitvec::store::BitStore + parity_scale_codec::Encode + crate:
 	}
 }
 
+/// Ranges that have been iterated - partly, or until they returned `None` (a `RangeInclusive` then
+/// carries a private "exhausted" flag): the encoding is `start ++ end` of what `start()`/`end()`
+/// report, whatever happened to the object before.
+fn range_history(ctx: &mut Ctx, rng: &mut Rng) {
+	use core::ops::{Range, RangeInclusive};
+	let a = rng.below(250) as u8;
+	let n = rng.below(6) as u8;
+	let b = a.saturating_add(n);
+	let mut forms: Vec<(&str, RangeInclusive<u8>)> = vec![("fresh", a..=b)];
+	let mut part = a..=b;
+	part.next();
+	forms.push(("one step taken", part));
+	let mut back = a..=b;
+	back.next_back();
+	forms.push(("one step taken from the back", back));
+	let mut done = a..=b;
+	for _ in done.by_ref() {}
+	forms.push(("iterated until None", done.clone()));
+	done.next();
+	forms.push(("iterated past None", done));
+	let mut nth = a..=b;
+	nth.nth(n as usize + 3);
+	forms.push(("nth beyond the end", nth));
+	forms.push(("empty from the start", b.saturating_add(1)..=a));
+	for (label, r) in forms {
+		let expect = (r.start(), r.end()).encode();
+		let (ans, bytes) = enc_answer(&r);
+		ctx.emit("hist-range", label, &format!("enc {} {}", <RangeInclusive<u8>>::ty(1), val_string(&r, false)), &ans);
+		let in_vec = enc_answer(&vec![r.clone(), r.clone()]).1;
+		let mut two = vec![8u8];
+		two.extend_from_slice(&expect);
+		two.extend_from_slice(&expect);
+		if bytes.as_deref() != Some(&expect[..]) || in_vec != Some(two) || r.encoded_size() != expect.len() || r.using_encoded(|b| b.to_vec()) != expect {
+			let msg = format!("RangeInclusive<u8> {:?} ({}) does not encode as start ++ end = {} (got {})", r, label, hex_or_dash(&expect), ans);
+			ctx.oracle_fail("C06", msg.clone());
+			ctx.oracle_fail("C01", msg);
+		}
+	}
+	let mut r: Range<u32> = 5..9;
+	r.next();
+	let mut e: Range<u32> = 5..9;
+	for _ in e.by_ref() {}
+	for (label, r) in [("one step taken", r), ("iterated until None", e)] {
+		let expect = (r.start, r.end).encode();
+		let (ans, bytes) = enc_answer(&r);
+		ctx.emit("hist-range", label, &format!("enc {} {}", <Range<u32>>::ty(1), val_string(&r, false)), &ans);
+		if bytes.as_deref() != Some(&expect[..]) {
+			let msg = format!("Range<u32> {:?} ({}) does not encode as start ++ end", r, label);
+			ctx.oracle_fail("C06", msg.clone());
+			ctx.oracle_fail("C01", msg);
+		}
+	}
+}
+
+/// Owned bit vectors that do not start at bit 0 of their first storage word (`from_bitslice`,
+/// `to_bitvec`, `split_off`, `clone` keep the head offset), of lengths that are and are not whole
+/// words, short and long; and long slices at every offset.
+#[cfg(feature = "bitvec-f")]
+fn bits_head_history<T: bitvec::store::BitStore + parity_scale_codec::Encode + crate::modeled::StoreName, O: bitvec::order::BitOrder + crate::modeled::OrderName>(
+	ctx: &mut Ctx,
+	rng: &mut Rng,
+	long: bool,
+) {
+	use bitvec::prelude::*;
+	let w = core::mem::size_of::<T>() * 8;
+	let lens: Vec<usize> = if long { vec![131072, 131072 + 5, 131072 + w, 2 * 131072 + 3] } else { vec![w, 2 * w, 8 * w, 512, 512 + w, 520, 1024, 1024 + w - 1] };
+	let total = lens.iter().max().unwrap() + 2 * w;
+	let mut bv: BitVec<T, O> = BitVec::with_capacity(total);
+	for _ in 0..total {
+		bv.push(rng.chance(1, 2));
+	}
+	for &len in &lens {
+		for start in [1usize, 3, w - 1, w + 2] {
+			let s: &BitSlice<T, O> = &bv[start..start + len];
+			let fresh: BitVec<T, O> = s.iter().by_vals().collect();
+			let expect = fresh.encode();
+			let owned: BitVec<T, O> = BitVec::from_bitslice(s);
+			let cloned = owned.clone();
+			let mut split = bv.clone();
+			let tail = split.split_off(start);
+			let mut tail_cut = tail.clone();
+			tail_cut.truncate(len);
+			let boxed: BitBox<T, O> = owned.clone().into_boxed_bitslice();
+			let mut bits = String::from("b");
+			for b in s.iter().by_vals() {
+				bits.push(if b { '1' } else { '0' });
+			}
+			let forms: Vec<(&str, Vec<u8>)> = vec![
+				("BitSlice at an offset", s.encode()),
+				("BitVec::from_bitslice", owned.encode()),
+				("its clone", cloned.encode()),
+				("split_off + truncate", tail_cut.encode()),
+				("BitBox", boxed.encode()),
+				("&BitVec", (&owned).encode()),
+				("Box<BitVec>", Box::new(owned.clone()).encode()),
+				("using_encoded", owned.using_encoded(|b| b.to_vec())),
+				("(BitVec,)", (owned.clone(),).encode()),
+			];
+			for (label, bytes) in forms {
+				if label == "BitVec::from_bitslice" && (!long || start == 1) {
+					ctx.emit("hist-bits", "BitVec(head offset)", &format!("enc bits {} {} {}", T::NAME, O::NAME, bits), &hex_or_dash(&bytes));
+				}
+				if bytes != expect {
+					let msg = format!("{} of {} bits taken from bit offset {} of BitVec<{}, {}> encodes differently from a fresh BitVec of the same bits", label, len, start, T::NAME, O::NAME);
+					ctx.oracle_fail("C06", msg.clone());
+					ctx.oracle_fail("C16", msg.clone());
+					ctx.oracle_fail("C01", msg);
+				}
+			}
+			if owned.encoded_size() != expect.len() {
+				ctx.oracle_fail("C07", format!("encoded_size of a BitVec<{}, {}> with head offset {} ({} bits)", T::NAME, O::NAME, start, len));
+			}
+		}
+	}
+}
+
 fn holder_history(ctx: &mut Ctx, rng: &mut Rng) {
 	let mut g = G::new(rng.next(), 8);
 	let v: (u32, Vec<u8>, Option<String>) = Modeled::gen(&mut g);
@@ -246,6 +362,7 @@ pub fn hist_stream(ctx: &mut Ctx) {
 		map_history(ctx, &mut rng);
 		list_history(ctx, &mut rng);
 		holder_history(ctx, &mut rng);
+		range_history(ctx, &mut rng);
 		let mut s = String::with_capacity(rng.below(200) as usize);
 		s.push_str("héllo");
 		s.reserve(rng.below(100) as usize);
@@ -268,5 +385,14 @@ pub fn hist_stream(ctx: &mut Ctx) {
 			bits_history::<u64, Lsb0>(ctx, &mut rng);
 			bits_history::<u64, Msb0>(ctx, &mut rng);
 		}
+		bits_head_history::<u8, Lsb0>(ctx, &mut rng, false);
+		bits_head_history::<u8, Msb0>(ctx, &mut rng, false);
+		bits_head_history::<u16, Msb0>(ctx, &mut rng, false);
+		bits_head_history::<u32, Lsb0>(ctx, &mut rng, false);
+		bits_head_history::<u64, Lsb0>(ctx, &mut rng, false);
+		bits_head_history::<u64, Msb0>(ctx, &mut rng, false);
+		bits_head_history::<u8, Lsb0>(ctx, &mut rng, true);
+		bits_head_history::<u32, Msb0>(ctx, &mut rng, true);
+		bits_head_history::<u64, Lsb0>(ctx, &mut rng, true);
 	}
 }
